@@ -303,6 +303,64 @@ def gen_ops(ctx):
             resps = f"{qid} B:{hx(rbody_)} {re_.norm_tokens(e.flags)}"
         ops.append((line, "roundtrip", {"want_req": reqs, "want_resp": resps}))
 
+    # ---- end to end: ONE real rpc.Client and ONE real rpc.Server over loopback; sequences of calls whose
+    # Responses are recycled through PutResponse/GetResponse; response extras drawn independently per call
+    ALL_RESP = 0
+    for b in RESP_FIELD_BITS:
+        ALL_RESP |= 1 << b
+
+    def e2e_call(mode):
+        qid, actor, tl2, body, e = req_fields("rt")
+        e.flags &= ~(1 << 7)
+        if e.flags & (1 << 23):     # the client refuses negative / unflagged custom timeouts and clears zero ones
+            e.timeout = rng.randrange(100000, 1 << 31)
+        else:
+            e.timeout = 0
+        re_ = RespExtra(rng, sparse=rng.random() < 0.3)
+        if mode == "none":
+            if rng.random() < 0.5:
+                re_.flags = 0
+            else:
+                e.flags &= ~re_.flags
+                e.flags &= ~(1 << 23)
+                e.timeout = 0
+        elif mode == "full":
+            e.flags |= ALL_RESP
+            e.flags &= ~((1 << 7) | (1 << 23))
+            e.timeout = 0
+            re_ = RespExtra(rng)
+            re_.flags = ALL_RESP
+        elif mode == "zero":
+            z = RespExtra()
+            z.flags = re_.flags or ALL_RESP
+            re_ = z
+            e.flags |= z.flags
+            e.flags &= ~((1 << 7) | (1 << 23))
+            e.timeout = 0
+        err = rerr(rng) if rng.random() < 0.3 else None
+        rb = rbody(rng, RESP_SPECIAL, minlen=0 if tl2 else 4)
+        toks = f"{qid} {actor} {tl2} {hx(body)} {e.tokens()} {hx(rb)} {err_tok(err)} {re_.tokens()}"
+        seen = f"{actor} {tl2} {struct.unpack('<I', body[:4])[0]} {hx(body)} {e.norm_tokens()}"
+        if err is not None:
+            code = err[0] if err[0] != 0 else U32 - 3999
+            got = f"E:{code}:{sub(err[1])}:. {re_.norm_tokens(e.flags)}"
+        else:
+            got = f"B:{hx(rb)} {re_.norm_tokens(e.flags)}"
+        return toks, seen + " => " + got
+
+    for i in range(120 if quick else 1200):
+        k = rng.randrange(2, 7)
+        r = rng.random()
+        if r < 0.4:
+            modes = [("full", "none")[j % 2] for j in range(k)]
+        elif r < 0.6:
+            modes = [("zero", "none", "full")[j % 3] for j in range(k)]
+        else:
+            modes = [rng.choice(["none", "full", "zero", "random", "random"]) for _ in range(k)]
+        calls = [e2e_call(m) for m in modes]
+        line = f"e2e {k} " + " ".join(c[0] for c in calls)
+        ops.append((line, "end-to-end", {"want": "ok " + " ; ".join(c[1] for c in calls), "modes": modes}))
+
     # ---- arbitrary / malformed wire bytes to the parsers (model == Go; no panic)
     def le32(v):
         return struct.pack("<I", v)
@@ -395,9 +453,34 @@ def oracle(ctx, ops, go_out):
                     r2 = rest[len(data["want_req"]) + 4:].split(" ", 1)
                     ok = len(r2) == 2 and r2[1] == data["want_resp"]
             why = "request/response round trip through one handler context"
+        elif kind == "end-to-end":
+            ok = out == data["want"]
+            why = "a caller of a real client saw something else than what the handler set for that call (or the handler saw something else than what the caller sent)"
+            if not ok and out.startswith("ok "):
+                got, want = out[3:].split(" ; "), data["want"][3:].split(" ; ")
+                for j, (g, w) in enumerate(zip(got, want)):
+                    if g != w:
+                        why += f"; first differing call: #{j} of {len(want)} (modes {','.join(data['modes'])})"
+                        break
         if not ok:
             bad.append((op, kind, out, f"C40:oracle:{kind}:{why}"))
     return bad
+
+
+def post(ctx, ops, model_out, go_out):
+    """evidence that the end-to-end calls really went through the client's Response pool"""
+    reused = 0
+    calls = 0
+    for (op, kind, data), side in zip(ops, GO.side):
+        if kind == "end-to-end":
+            calls += len(data["modes"])
+            d = kv(side)
+            if "pooled_response_reused_total" in d:
+                reused = max(reused, int(d["pooled_response_reused_total"]))
+    ctx.notes["end_to_end"] = {"calls_on_one_client": calls, "calls_that_got_the_previous_pooled_Response": reused}
+    if calls and reused * 2 < calls:
+        ctx.violation("C40:e2e:pool-not-exercised", f"only {reused} of {calls} end-to-end calls reused a pooled Response: the recycle path is not exercised",
+                      {"calls": calls, "reused": reused}, no_input=True)
 
 
 def run(ctx):
@@ -405,7 +488,7 @@ def run(ctx):
         heal_extract()
     standard_run(
         ctx, props=PROPS, family=FAMILY, consts=["Frame", "Prim"], go_runner=GO.runner, gen_ops=gen_ops, oracle=oracle,
-        corr_name="corr:C40:hdr",
+        corr_name="corr:C40:hdr", post=post,
         trusted=["translator tools/genconsts (go/parser; TLTag methods of the generated types, maxPacketLen, packetOverhead, tlerrorcodes.Unknown)",
                  "Go harness overlay/pkg/rpc/verif_frame_test.go and the comparison/oracle in lib/checks/C40.py",
                  "flag-bit assignment of the generated ReadTL1/WriteTL1 is transcribed by hand into the model; it is exercised bit by bit by the correspondence"],
